@@ -6,7 +6,7 @@
 (* subset). "@...@" strings are file-system placeholders the harness fills in.    *)
 EXTENDS Malformed, Json
 
-CONSTANTS Families      \* subset of {"jsonschema","openapi","cue","pipeline","passes","veneers"} to emit
+CONSTANTS Families      \* subset of {"jsonschema","openapi","cue","pipeline","passes","veneers","sequences","parameters"} to emit
 
 VARIABLES fam, base, m
 vars == <<fam, base, m>>
@@ -42,7 +42,7 @@ Defs(pre, oa) == <<
                                        P("mapping", O(<<P("a", S(pre \o "A")), P("b", S(pre \o "B"))>>))>>))>> ELSE <<>>))),
       P("maybe", IF oa THEN O(<<Ty("string"), P("nullable", JBool(TRUE))>>)
                  ELSE O(<<P("anyOf", A(<<Ref(pre, "Child"), O(<<Ty("null")>>)>>))>>)),
-      P("inl", O(<<Ty("object"), P("properties", O(<<P("z", IntT)>>))>>)),
+      P("inl", O(<<Ty("object"), P("properties", O(<<P("z", IntT), P("y", StrT)>>))>>)),
       P("color", Ref(pre, "Color")),
       P("alias", Ref(pre, "Alias")),
       P("next", Ref(pre, "Root"))>>))>>)),
@@ -220,6 +220,42 @@ VeneerAlphabet == <<S("x"), S(""), S("."), S("Root."), S(".name"), S("Root"), S(
                     S("Nowhere.x"), S("name.x"), S("kids.cid"), S("alias.cid"), S("go"), S("cfgo"), JInt(0), JInt(1), JInt(5), JInt(-1), JBool(TRUE), JNull, A(<<>>), O(<<>>),
                     A(<<S("")>>), A(<<S("nowhere")>>), A(<<S("z"), S("z")>>), A(<<JNull>>), O(<<P("x", S("y"))>>)>>
 
+(* ---- sequences of TWO option rules on the same option (a rule changes the option's arguments, the next one meets the result) *)
+OptTargets == <<"Root.labels", "Root.tags", "Root.inl", "Root.on", "Root.u", "Root.name", "Root.kids", "Root.mk">>
+OR(k, body) == O(<<P(k, body)>>)
+NOptRules == 17
+OptRuleN(n, t) ==
+  CASE n = 1  -> OR("omit", O(<<ByOpt(t)>>))
+    [] n = 2  -> OR("rename", O(<<ByOpt(t), P("as", S("title"))>>))
+    [] n = 3  -> OR("rename_arguments", O(<<ByOpt(t), P("as", A(<<>>))>>))
+    [] n = 4  -> OR("rename_arguments", O(<<ByOpt(t), P("as", A(<<S("one")>>))>>))
+    [] n = 5  -> OR("rename_arguments", O(<<ByOpt(t), P("as", A(<<S("one"), S("two")>>))>>))
+    [] n = 6  -> OR("rename_arguments", O(<<ByOpt(t), P("as", A(<<S("one"), S("two"), S("three")>>))>>))
+    [] n = 7  -> OR("unfold_boolean", O(<<ByOpt(t), P("true_as", S("enable")), P("false_as", S("disable"))>>))
+    [] n = 8  -> OR("struct_fields_as_arguments", O(<<ByOpt(t)>>))
+    [] n = 9  -> OR("struct_fields_as_arguments", O(<<ByOpt(t), P("fields", A(<<S("z")>>))>>))
+    [] n = 10 -> OR("struct_fields_as_options", O(<<ByOpt(t)>>))
+    [] n = 11 -> OR("array_to_append", O(<<ByOpt(t)>>))
+    [] n = 12 -> OR("map_to_index", O(<<ByOpt(t)>>))
+    [] n = 13 -> OR("disjunction_as_options", O(<<ByOpt(t), P("argument_index", JInt(0))>>))
+    [] n = 14 -> OR("disjunction_as_options", O(<<ByOpt(t), P("argument_index", JInt(1))>>))
+    [] n = 15 -> OR("duplicate", O(<<ByOpt(t), P("as", S("again"))>>))
+    [] n = 16 -> OR("add_comments", O(<<ByOpt(t), P("comments", A(<<S("c")>>))>>))
+    [] n = 17 -> OR("add_assignment", O(<<ByOpt(t), P("assignment", O(<<P("path", S("name")), P("method", S("direct")),
+                                                                        P("value", O(<<P("constant", S("x"))>>))>>))>>))
+SeqDoc(t, a, b) == O(<<P("language", S("all")), P("package", S("cfgt")),
+                       P("options", A(<<OptRuleN(a, OptTargets[t]), OptRuleN(b, OptTargets[t])>>))>>)
+
+(* ---- parameter environments: values that mention themselves, each other, nothing, something undefined *)
+ParamValues == <<"v", "%p%", "%q%", "%p%/x", "%q%/y", "%nope%", "">>
+ParamUses   == <<"out", "%p%", "%q%/o", "%p%%q%">>
+ParamDoc(pv, qv, u) == O(<<
+  P("parameters", O(<<P("p", S(ParamValues[pv])), P("q", S(ParamValues[qv]))>>)),
+  P("inputs", A(<<O(<<P("jsonschema", O(<<P("path", S("@JS@")), P("package", S("cfgt"))>>))>>)>>)),
+  P("output", O(<<P("directory", S(ParamUses[u])), Flag("types", TRUE),
+                  P("templates_data", O(<<P("k", S(ParamUses[u]))>>)),
+                  P("languages", A(<<O(<<P("go", O(<<P("package_root", S("genmod/" \o ParamUses[u]))>>))>>)>>))>>))>>)
+
 (* ====================================================================== enumeration *)
 Bases(f) ==
   CASE f = "jsonschema" -> <<JsDoc(Defs(JsPre, FALSE)), JsDoc(CycleDefs(JsPre)), JsDoc(ExtraDefs(JsPre))>>
@@ -239,16 +275,24 @@ Alphabet(f) ==
 AsIs == [path |-> <<>>, mut |-> -1]           \* the base document itself (the cycle documents are degenerate as they stand)
 CueCase(e, p) == [path |-> <<>>, mut |-> e, pos |-> p]
 
+SeqCase(t, a, b) == [path |-> <<>>, mut |-> a, pos |-> b, t |-> t]
 Init == /\ fam \in Families
-        /\ IF fam = "cue"
-           THEN base = 1 /\ m \in {CueCase(e, p) : e \in DOMAIN CueExprs, p \in DOMAIN CuePositions}
-           ELSE base \in DOMAIN Bases(fam) /\ m \in ({AsIs} \cup Mutants(Bases(fam)[base], Alphabet(fam)))
+        /\ CASE fam = "cue" -> base = 1 /\ m \in {CueCase(e, p) : e \in DOMAIN CueExprs, p \in DOMAIN CuePositions}
+             [] fam = "sequences" -> base = 1 /\ m \in {SeqCase(t, a, b) : t \in DOMAIN OptTargets, a \in 1..NOptRules, b \in 1..NOptRules}
+             [] fam = "parameters" -> base = 1 /\ m \in {SeqCase(u, pv, qv) : u \in DOMAIN ParamUses, pv \in DOMAIN ParamValues, qv \in DOMAIN ParamValues}
+             [] OTHER -> base \in DOMAIN Bases(fam) /\ m \in ({AsIs} \cup Mutants(Bases(fam)[base], Alphabet(fam)))
 Next == UNCHANGED vars
 Spec == Init /\ [][Next]_vars
 
 Doc == Bases(fam)[base]
 Emit ==
-  IF fam = "cue"
+  IF fam = "sequences"
+  THEN PrintT(<<"CASE", ToJson([fam |-> fam, base |-> base, class |-> "sequence", keyword |-> OptTargets[m.t], path |-> <<>>,
+                                mut |-> m.mut, second |-> m.pos, t |-> m.t, doc |-> SeqDoc(m.t, m.mut, m.pos)])>>)
+  ELSE IF fam = "parameters"
+  THEN PrintT(<<"CASE", ToJson([fam |-> fam, base |-> base, class |-> "environment", keyword |-> "parameters", path |-> <<>>,
+                                mut |-> m.mut, second |-> m.pos, t |-> m.t, doc |-> ParamDoc(m.mut, m.pos, m.t)])>>)
+  ELSE IF fam = "cue"
   THEN PrintT(<<"CASE", ToJson([fam |-> fam, base |-> base, class |-> "expression", keyword |-> CuePositions[m.pos],
                                 expr |-> CueExprs[m.mut], pos |-> CuePositions[m.pos], e |-> m.mut])>>)
   ELSE IF m.mut = -1
